@@ -318,7 +318,7 @@ DEFAULT_WEIGHTS = {
     "merge": 0, "combine": 0, "split": 0, "unsat_core": 0, "pickle": 0, "pickle_expr": 0, "g_truth": 0, "new": 0,
     "add_replacement": 0, "split_recombine": 0, "merge3": 0,
     # multi-step shapes random walks rarely produce (DESIGN 9.6.1); cheap, so on everywhere with a small weight
-    "exhaust_batch": 2, "span_branch_add": 0, "late_unsat": 2, "bridge_split": 0, "split_cross": 0, "branch_simplify_add": 0, "pairwise_derive": 0, "drop_reuse": 1, "double_branch": 1, "remove_replacement": 0, "branch_replacement": 0,
+    "exhaust_batch": 2, "span_branch_add": 0, "late_unsat": 2, "bridge_split": 0, "split_cross": 0, "branch_simplify_add": 0, "pairwise_derive": 0, "drop_reuse": 1, "double_branch": 1, "remove_replacement": 0, "branch_replacement": 0, "combine3": 0,
 }
 
 QUERY_KINDS = ("sat", "probe", "eval", "batch_eval", "min", "max", "solution", "is_true", "is_false")
@@ -743,6 +743,9 @@ class HistoryGen:
             return
         elif kind == "split_cross":
             self.macro_split_cross(hi, h)
+            return
+        elif kind == "combine3":
+            self.macro_combine3(hi, h, live)
             return
         elif kind == "branch_replacement":
             self.macro_branch_replacement(hi, h, live)
@@ -1250,6 +1253,46 @@ class HistoryGen:
             else:
                 self.emit({"op": k, "h": reader, "e": r.choice([["var", n], ["add", ["var", n], ["const", 1, w]]]), "signed": False, "extra": []})
 
+    def macro_combine3(self, hi, h, live):
+        """three fresh solvers that have each been solved (cached models): the first over one variable, the other two
+        over ANOTHER variable that they share, with different ideas about it; then the first combines the other two"""
+        r = self.r
+        if h.ref.kind != "enum" or len(live) >= self.max_handles:
+            return
+        eg = self.egf(h)
+        if len(eg.bvs) < 2 or eg.simple:
+            return
+        a, b = r.sample(eg.bvs, 2)
+        wa, wb = self.vars[a], self.vars[b]
+        base = len([z for z in self.handles if z.alive])
+        kb = r.below(1 << wb)
+        specs = [
+            [[r.choice(["ule", "uge", "ne"]), ["var", a], ["const", r.below(1 << wa), wa]]],
+            [[r.choice(["ule", "eq"]), ["var", b], ["const", kb, wb]]],
+            [[r.choice(["ugt", "ne", "uge"]), ["var", b], ["const", kb, wb]]],
+        ]
+        for i, cs in enumerate(specs):
+            self.emit({"op": "new", "cls": h.cls, "kw": dict(h.kw or {})})
+            self.emit({"op": "add", "h": base + i, "cs": cs})
+            v = a if i == 0 else b
+            k0 = r.choice(["eval", "max", "min"])
+            q0 = {"op": k0, "h": base + i, "e": ["var", v], "extra": []}
+            q0.update({"n": r.choice([1, 2])} if k0 == "eval" else {"signed": False})
+            self.emit(self.exact_op(h, q0))
+        self.emit({"op": "combine", "h": base, "others": [base + 1, base + 2]})
+        for _ in range(r.range(2, 4)):
+            k = r.choice(["sat", "eval", "probe", "max", "solution"])
+            if k == "sat":
+                self.emit({"op": "sat", "h": -1, "extra": []})
+            elif k == "eval":
+                self.emit(self.exact_op(h, {"op": "eval", "h": -1, "e": ["var", b], "n": (1 << wb) + 1, "extra": []}))
+            elif k == "probe":
+                self.emit({"op": "sat", "h": -1, "extra": [["eq", ["var", b], ["const", r.below(1 << wb), wb]]]})
+            elif k == "solution":
+                self.emit(self.exact_op(h, {"op": "solution", "h": -1, "e": ["var", b], "v": kb, "extra": []}))
+            else:
+                self.emit(self.exact_op(h, {"op": "max", "h": -1, "e": ["var", b], "signed": False, "extra": []}))
+
     def macro_merge3(self, hi, h, live):
         """C15: a three-way merge in which two participants share state (branches of one base) and the third has an
         unrelated history that constrains the same variables differently"""
@@ -1704,7 +1747,7 @@ PROFILES = {
         "concrete_pct": 4,
         "length": (6, 36),
         "weights": {"branch": 14, "merge": 9, "combine": 8, "split": 6, "add": 24, "new": 4, "split_recombine": 4, "merge3": 4,
-                    "bridge_split": 4, "split_cross": 3},
+                    "bridge_split": 4, "split_cross": 3, "combine3": 4},
         "never_swarm_out": ("branch",),
         "initial_handles": (1, 2),
         "max_handles": 6,
